@@ -198,6 +198,11 @@ class Arr:
             if key == slice(None, None, None):
                 return Arr(self.space, self.e, self.mask, owner=self.owner)
             raise EngineError(f"array slice {key}")
+        if isinstance(key, SV):
+            from .tabletheory import arr_rank_get
+            r = arr_rank_get(it, self, key)
+            if r is not NotImplemented:
+                return r
         if isinstance(key, (int, SV)) and not isinstance(key, bool):
             if self.mask is not True:
                 raise EngineError("positional access into a compressed array")
@@ -247,6 +252,11 @@ class Arr:
             else:
                 raise EngineError(f"store of {type(val).__name__}")
             return
+        if isinstance(key, SV):
+            from .tabletheory import arr_rank_set
+            r = arr_rank_set(it, self, key, val)
+            if r is not NotImplemented:
+                return
         if isinstance(key, Arr):
             # scatter a[idx] = v : recorded as a guarded functional update for the generic row of `key`'s space
             raise EngineError("scatter store into a 1-D generic array is not modelled")
@@ -342,7 +352,7 @@ def any_(it, a):
         ex = z3.Bool(f"any[{a.space.name},{_key(a.mask)},{_key(t)}]")
         # axiom: if no row satisfies it, the generic row does not either
         m = _zb(a.mask)
-        it.ctx.facts.append(z3.Implies(z3.And(m, t), ex))
+        it.ctx.axiom(z3.Implies(z3.And(m, t), ex))
         return SV(ex)
     return it.truth_sv(a)
 
@@ -357,7 +367,7 @@ def all_(it, a):
             return True
         al = z3.Bool(f"all[{a.space.name},{_key(a.mask)},{_key(t)}]")
         m = _zb(a.mask)
-        it.ctx.facts.append(z3.Implies(al, z3.Implies(m, t)))
+        it.ctx.axiom(z3.Implies(al, z3.Implies(m, t)))
         return SV(al)
     return it.truth_sv(a)
 
@@ -765,8 +775,6 @@ class Mat:
         raise EngineError("row_of on a multi-segment matrix")
 
     def sym_len(self, it):
-        if len(self.segments) == 1:
-            return SV(next(iter(self.segments.values())).n)
         return SV(z3.Int(f"rows[{self.name}]"))
 
     def sym_isinstance(self, it, cls):
@@ -891,3 +899,6 @@ class ZipArr:
 
     def make_like(self, e):
         return Arr(self.space, e, self.mask)
+
+    def sym_list(self, it):
+        return self
